@@ -287,6 +287,14 @@ def meta_worker(lines):
     return res
 
 
+DOC_ATTRS = {'sequence_number': ['number'], 'channel_prefix': ['channel'], 'midi_port': ['port'], 'set_tempo': ['tempo'],
+             'smpte_offset': ['frame_rate', 'hours', 'minutes', 'seconds', 'frames', 'sub_frames'],
+             'time_signature': ['numerator', 'denominator', 'clocks_per_click', 'notated_32nd_notes_per_beat'],
+             'key_signature': ['key'], 'sequencer_specific': ['data'], 'text': ['text'], 'copyright': ['text'],
+             'track_name': ['name'], 'instrument_name': ['name'], 'lyrics': ['text'], 'marker': ['text'],
+             'cue_marker': ['text'], 'device_name': ['name'], 'end_of_track': []}
+
+
 def check_default_metas():
     """Every meta type built without arguments (all attributes at their documented
     defaults), and with only a time: eval(repr(x)) == x, also inside a track and a file."""
@@ -307,6 +315,35 @@ def check_default_metas():
                 continue
             if not ok:
                 out.append(('roundtrip/repr/default-meta-' + t, 'eval(%r) = %r' % (repr(m), b)))
+    # every attribute of every meta type assigned after construction (to another legal value):
+    # what repr shows is what the message holds
+    for t in sorted(_META_SPEC_BY_TYPE):
+        try:
+            m = mido.MetaMessage(t)
+            # (the attribute names are the documented ones, not whatever the library lists today)
+            for name in DOC_ATTRS.get(t, list(_META_SPEC_BY_TYPE[t].attributes)):
+                cur = getattr(m, name)
+                new = (cur + 1 if isinstance(cur, int) and not isinstance(cur, bool) and name not in ('denominator', 'frame_rate')
+                       else cur + 'x' if isinstance(cur, str) and name != 'key' else
+                       'Eb' if name == 'key' else 8 if name == 'denominator' else 25 if name == 'frame_rate' else
+                       tuple(cur) + (9,) if isinstance(cur, (tuple, list)) else cur)
+                setattr(m, name, new)
+                if getattr(m, name) != new:
+                    out.append(('roundtrip/repr/assigned-meta-' + t, '%s.%s = %r reads back %r' % (t, name, new, getattr(m, name))))
+            b = eval_repr(m)
+            if not (b == m) or vars(b) != vars(m) or not (mido.MetaMessage.from_bytes(m.bytes()) == m):
+                out.append(('roundtrip/repr/assigned-meta-' + t, 'after assigning every attribute: eval(%r) = %r, holds %r' % (
+                    repr(m), b, vars(m))))
+        except Exception as e:
+            out.append(('roundtrip/repr/assigned-meta-' + t, 'assigning the attributes of %s: %r' % (t, e)))
+    # tracks of any length
+    try:
+        big = mido.MidiTrack(mido.Message('note_on', note=k % 128, time=k % 3) for k in range(1501))
+        eb = eval_repr(big)
+        if not isinstance(eb, mido.MidiTrack) or list(eb) != list(big):
+            out.append(('roundtrip/repr/track-len1501', 'eval(repr(track of 1501 messages)) has %d items' % len(eb)))
+    except Exception as e:
+        out.append(('roundtrip/repr/track-len1501', repr(e)))
     # any str is a legal text, whatever charset some file may be written in later
     for text in ('\u20ac \u266a', '\u65e5\u672c\u8a9e', 'caf\xe9', '\U0001f3b9', '', ' ', "it's", 'a"b', 'x\ny', '\\'):
         for t, attr in (('text', 'text'), ('track_name', 'name'), ('lyrics', 'text'), ('marker', 'text')):
@@ -325,7 +362,7 @@ def check_default_metas():
             if not ok:
                 out.append(('roundtrip/repr/meta-text/' + t, 'eval(%r) = %r' % (repr(m), b)))
                 break
-    return out[:4]
+    return out[:6]
 
 
 def file_worker(lines):
